@@ -70,7 +70,7 @@ func zvUnmarshalSANs(der []byte) ([]zvSAN, error) {
 // ---------------------------------------------------------------------------------------------
 
 type zvIdent struct {
-	Kind string `json:"kind"` // service | agent | mesh-gateway | server
+	Kind string `json:"kind"`         // service | agent | mesh-gateway | server
 	TD   string `json:"trust_domain"` // lower-cased authority
 	AP   string `json:"partition"`    // "" when the /ap/ prefix is absent
 	NS   string `json:"namespace,omitempty"`
@@ -83,7 +83,7 @@ type zvStrict struct {
 	Reason    string  `json:"reason,omitempty"` // why the URI is not a strict SPIFFE identity of a supported kind
 	KindHint  string  `json:"kind_hint,omitempty"`
 	ID        zvIdent `json:"id"`
-	PathOK    bool    `json:"path_ok"` // the path is a strict identity path (the authority may still be refused)
+	PathOK    bool    `json:"path_ok"`   // the path is a strict identity path (the authority may still be refused)
 	Canonical bool    `json:"canonical"` // byte-for-byte the form consul itself renders (no escapes, no explicit /ap/default, scheme "spiffe")
 }
 
